@@ -191,3 +191,19 @@ def check(facts, rep, tier, cfg):
     for v in sub.violations:
         rep.bad("C02.R5", v["key"].split("/", 1)[1], v["where"], v["msg"])
 
+    # ---- R6 no two live streams under one id: the Connect / Acknowledge reactions never replace a live slot (C10 table cells)
+    rep.rule("C02.R6", "no cross-talk through id reuse: a Connect on an id that is in use (or 0) inserts nothing and answers Reset; "
+                       "an Acknowledge establishes only a Requested slot (C10 table cells)")
+    sub = type(rep)(rep.prop, rep.tier, rep.config)
+    rules_c10.check(facts, sub, tier, cfg)
+    rep.paths += sub.paths
+    pick = lambda k: ("cell/Connect/" in k or "unmatched/op:Connect" in k or "cell/Acknowledge/" in k or "unmatched/op:Acknowledge" in k)
+    k = 0
+    for v in sub.violations:
+        if pick(v["key"]):
+            rep.bad("C02.R6", v["key"].split("/", 1)[1], v["where"], v["msg"])
+    for i in sub.instances:
+        if pick(i["key"]):
+            k += 1
+            rep.ok("C02.R6", i["key"], i["where"], i["detail"], nontrivial=False)
+    rep.floor("C02.R6", "Connect / Acknowledge cells of the reaction table", k, 4)
